@@ -50,7 +50,7 @@ DESIGN_REF = "DESIGN.md section 3, C07"
 def case_st(draw, allow_fbmc=False):
     if allow_fbmc and draw(st.integers(0, 9)) == 0:
         return {"fbmc": True, "seed": draw(st.integers(0, 2 ** 32)), "n": draw(st.integers(2, 5))}
-    scn = draw(M.scenario(exclude=("multi-exchange",), constraints=False, extra_arrays=True, max_entries=3))
+    scn = draw(M.scenario(exclude=("multi-exchange", "fixatoms-deletion"), constraints=True, extra_arrays=True, max_entries=3, default_labels=True))
     scn["seed"] = draw(st.integers(0, 2 ** 40))
     scn["temperature"] = draw(log10_floats(2.7, 4))
     scn["mu"] = draw(fl(-0.5, 0.5))
@@ -59,6 +59,10 @@ def case_st(draw, allow_fbmc=False):
     scn["external_stress"] = [[draw(fl(-0.05, 0.05)) for _ in range(3)] for _ in range(3)]
     scn["table"] = [[draw(st.integers(1, 2)), draw(fl(0.2, 2.0)), 0] for _ in scn["entries"]]
     scn["table"][0][0] = 1
+    scn["calc"] = "fast"
+    # entry names in a generated (generally non-alphabetical) order: the table order is part of the state
+    scn["names"] = draw(st.permutations(["zeta", "alpha", "mid", "beta"]).map(lambda p: list(p)[: len(scn["entries"])]))
+    scn.pop("alias_of", None)
     return {"scn": scn, "n": draw(st.integers(4, 9))}
 
 
